@@ -74,10 +74,17 @@ Definition effect_names (e : effect) : list string :=
   end.
 Definition script_names (effs : list effect) : list string := concat (map effect_names effs).
 
-Definition universe : list string :=
-  (concat (map r_names registrations)
-   ++ concat (map (fun p => script_names (snd p)) init_scripts)
-   ++ map snd static_props)%list.
+Fixpoint dedup (l : list string) (seen : list string) : list string :=
+  match l with
+  | [] => []
+  | x :: r => if existsb (String.eqb x) seen then dedup r seen else x :: dedup r (x :: seen)
+  end.
+(* (definitions marked `Eval vm_compute in` are evaluated once, when this file is compiled against the
+   regenerated Gen/LoaderScripts.v; they are plain data afterwards) *)
+Definition universe : list string := Eval vm_compute in
+  dedup (concat (map r_names registrations)
+         ++ concat (map (fun p => script_names (snd p)) init_scripts)
+         ++ map snd static_props)%list [].
 
 Fixpoint index_of (s : string) (l : list string) (i : N) : N :=
   match l with
@@ -109,7 +116,7 @@ Definition find_script (key : string) : option (list effect) :=
 Definition key_group (key : string) : N :=
   match find_script key with Some effs => home_group effs | None => 0 end.
 
-Definition group_of_name (s : string) : N :=
+Definition group_of_name_raw (s : string) : N :=
   match reg_group s with
   | Some g => g
   | None => match find (fun p => str_in s (script_names (snd p))) init_scripts with
@@ -117,6 +124,13 @@ Definition group_of_name (s : string) : N :=
             | None => 0
             end
   end.
+
+Definition group_table : list (string * N) := Eval vm_compute in
+  map (fun s => (s, group_of_name_raw s))
+      (dedup (concat (map r_names registrations) ++ concat (map (fun p => script_names (snd p)) init_scripts)
+              ++ map snd static_props)%list []).
+Definition group_of_name (s : string) : N :=
+  match find (fun p => String.eqb (fst p) s) group_table with Some p => snd p | None => 0 end.
 
 (* every script only mentions names of its own group *)
 Definition scripts_local : bool :=
@@ -151,7 +165,7 @@ Definition resolve (e : effect) : reffect :=
   | ERead t n => RRead t (nid n)
   | ECall f => RCall f
   end.
-Definition rscripts : list (string * list reffect) :=
+Definition rscripts : list (string * list reffect) := Eval vm_compute in
   map (fun p => (fst p, map resolve (snd p))) init_scripts.
 Definition rscript (key : string) : list reffect :=
   match find (fun p => String.eqb (fst p) key) rscripts with Some p => snd p | None => [] end.
@@ -532,17 +546,28 @@ Definition install (g : N) (r : registration) : gstate :=
   fold_left (fun x c => if reg_flag r c
                         then fold_left (fun x0 p => cset x0 c (nid p) (CPending g)) (r_names r) x
                         else x) install_order empty_g.
-Definition base_init : gstate :=
+Definition base_init : gstate := Eval vm_compute in
   let x0 := fold_left (fun x p => cset x (fst p) (nid (snd p)) CComputed) static_props empty_g in
   fold_left (fun x key => fst (run_init None FUEL key Pub x)) eager_inits x0.
+Definition init_comps : list (N * gstate) := Eval vm_compute in
+  map (fun i => let g := N.of_nat i in
+                (g, if N.eqb g 0 then base_init else match reg_of g with Some r => install g r | None => empty_g end))
+      (seq 0 (S (length registrations))).
 Definition init_comp (g : N) : gstate :=
-  if N.eqb g 0 then base_init else match reg_of g with Some r => install g r | None => empty_g end.
+  match find (fun p => N.eqb (fst p) g) init_comps with Some p => snd p | None => empty_g end.
 Definition init_state : state := mkS [] init_comp.
 
 (* the canonical order: a plain read on the public table of a fresh interpreter *)
-Definition canon (a : atom) (n : string) : rres :=
+Definition canon_raw (a : atom) (n : string) : rres :=
   let g := group_of_name n in
   snd (getattr (if N.eqb g 0 then None else Some base_init) FUEL Pub a (nid n) (init_comp g)).
+Definition canon_table : list (string * list (N * rres)) := Eval vm_compute in
+  map (fun n => (n, map (fun a => (acode a, canon_raw a n)) all_atoms)) universe.
+Definition canon (a : atom) (n : string) : rres :=
+  match find (fun p => String.eqb (fst p) n) canon_table with
+  | Some p => match aget (acode a) (snd p) with Some r => r | None => canon_raw a n end
+  | None => canon_raw a n
+  end.
 
 Definition content_eqb (c d : content) : bool :=
   match c, d with
@@ -574,11 +599,55 @@ Definition classify (T : table) (x : gstate) (cn r : rres) : outcome :=
       end
   end.
 
-(* one read, as an event component *)
-Definition do_read (s : state) (T : table) (a : atom) (n : string) : state * rres * outcome :=
-  let g := group_of_name n in
-  let '(x, r) := getattr (base_of s g) FUEL T a (nid n) (comp s g) in
-  (upd s g x, r, classify T x (canon a n) r).
+(* ---- operations that act on ONE group: every event is one of them, or a sequence of them *)
+Inductive lop :=
+| LGet (T : table) (a : atom) (n : string)
+| LHas (T : table) (a : atom) (n : string)
+| LSetA (T : table) (a : atom) (n : string)
+| LMut (T : table) (a : atom) (n : string)
+| LInit (key : string) (T : table).
+
+Definition lgroup (o : lop) : N :=
+  match o with
+  | LGet _ _ n | LHas _ _ n | LSetA _ _ n | LMut _ _ n => group_of_name n
+  | LInit key _ => key_group key
+  end.
+Definition ltable (o : lop) : table :=
+  match o with LGet T _ _ | LHas T _ _ | LSetA T _ _ | LMut T _ _ | LInit _ T => T end.
+
+Definition lrun (o : lop) (base : option gstate) (x : gstate) : gstate * outcome :=
+  match o with
+  | LGet T a n =>
+      let '(x1, r) := getattr base FUEL T a (nid n) x in (x1, classify T x1 (canon a n) r)
+  | LHas T a n =>
+      match getattr base FUEL T a (nid n) x with
+      | (x1, RVal _ _) => (x1, OBool true)
+      | (x1, RErr AttrErr) => (x1, OBool false)
+      | (x1, RErr e) => (x1, OErr e)
+      end
+  | LSetA T a n =>
+      match setattr base FUEL T a (nid n) IUser x with
+      | (x1, None) => (x1, OOk)
+      | (x1, Some er) => (x1, OErr er)
+      end
+  | LMut T a n =>
+      match getattr base FUEL T a (nid n) x with
+      | (x1, RErr er) => (x1, OErr er)
+      | (x1, RVal _ None) => (x1, OImm)
+      | (x1, RVal _ (Some ob)) => (add_mark x1 ob T, OOk)
+      end
+  | LInit key T =>
+      match run_init base FUEL key T x with
+      | (x1, None) => (x1, OOk)
+      | (x1, Some er) => (x1, OErr er)
+      end
+  end.
+
+Definition apply (s : state) (o : lop) : state * outcome :=
+  if exists_tab s (ltable o) then
+    let g := lgroup o in
+    let '(x, oc) := lrun o (base_of s g) (comp s g) in (upd s g x, oc)
+  else (s, OErr OtherErr).
 
 (* calculators: the reads they perform, in order (hand-written; tied by the correspondence run).
    probe = the calculator tests hasattr and goes on without the data *)
@@ -598,11 +667,11 @@ Fixpoint do_reads (s : state) (T : table) (l : list (atom * string * bool)) (acc
   match l with
   | [] => (s, acc)
   | (a, n, probe) :: r =>
-      let '(s1, _, o) := do_read s T a n in
+      let '(s1, o) := apply s (LGet T a n) in
       match o with
       | OErr e => if probe then do_reads s1 T r ODiff else (s1, OErr e)
       | OSame => do_reads s1 T r acc
-      | OUser => do_reads s1 T r (match acc with OSame => OSame | z => z end)   (* marks do not enter results *)
+      | OUser => do_reads s1 T r acc      (* marks do not enter computed results *)
       | _ => do_reads s1 T r ODiff
       end
   end.
@@ -617,35 +686,11 @@ Definition import_reads (m : string) : list (atom * string * bool) :=
 
 Definition step (s : state) (e : event) : state * outcome :=
   match e with
-  | Read T a n =>
-      if exists_tab s T then let '(s1, _, o) := do_read s T a n in (s1, o) else (s, OErr OtherErr)
-  | Has T a n =>
-      if exists_tab s T then
-        let '(s1, r, _) := do_read s T a n in
-        match r with
-        | RVal _ _ => (s1, OBool true)
-        | RErr AttrErr => (s1, OBool false)
-        | RErr e => (s1, OErr e)
-        end
-      else (s, OErr OtherErr)
-  | SetA T a n =>
-      if exists_tab s T then
-        let g := group_of_name n in
-        match setattr (base_of s g) FUEL T a (nid n) IUser (comp s g) with
-        | (x, None) => (upd s g x, OOk)
-        | (x, Some er) => (upd s g x, OErr er)
-        end
-      else (s, OErr OtherErr)
-  | Mut T a n =>
-      if exists_tab s T then
-        let g := group_of_name n in
-        let '(s1, r, _) := do_read s T a n in
-        match r with
-        | RErr er => (s1, OErr er)
-        | RVal _ None => (s1, OImm)
-        | RVal _ (Some ob) => (upd s1 g (add_mark (comp s1 g) ob T), OOk)
-        end
-      else (s, OErr OtherErr)
+  | Read T a n => apply s (LGet T a n)
+  | Has T a n => apply s (LHas T a n)
+  | SetA T a n => apply s (LSetA T a n)
+  | Mut T a n => apply s (LMut T a n)
+  | Init key T => apply s (LInit key T)
   | Import m =>
       match do_reads s Pub (import_reads m) OSame with
       | (s1, OErr er) => (s1, OErr er)
@@ -654,23 +699,10 @@ Definition step (s : state) (e : event) : state * outcome :=
       end
   | Calc c T =>
       if exists_tab s T then do_reads s T (calc_reads c) OSame else (s, OErr OtherErr)
-  | Init key T =>
-      if exists_tab s T then
-        let g := key_group key in
-        match run_init (base_of s g) FUEL key T (comp s g) with
-        | (x, None) => (upd s g x, OOk)
-        | (x, Some er) => (upd s g x, OErr er)
-        end
-      else (s, OErr OtherErr)
   | New T =>
       (* T = PeriodicTable(name); mass.init(T): the isotopes of a table exist only after mass.init *)
       if exists_tab s T then (s, OErr ValueErr)
-      else
-        let s0 := mkS (T :: tabs s) (comp s) in
-        match run_init None FUEL "mass.init" T (comp s0 0) with
-        | (x, None) => (upd s0 0 x, OOk)
-        | (x, Some er) => (upd s0 0 x, OErr er)
-        end
+      else apply (mkS (T :: tabs s) (comp s)) (LInit "mass.init" T)
   | Parse T => if exists_tab s T then (s, OBool true) else (s, OErr OtherErr)
   | Pickle T a => if exists_tab s T then (s, OBool true) else (s, OErr OtherErr)
   end.
